@@ -1,4 +1,5 @@
 import PW.Props.C01
+import PW.Proofs.Gather
 /-!
 # C03 — multi-subsystem operators bind to operands in the order given
 
@@ -21,6 +22,22 @@ theorem operands_bound_in_given_order (dims : List Nat) (T : List Nat) (hnd : T.
         [O, ρ, fun idx => conj (O idx)] (r ++ c)
       = Spec.applyOn dims T O ρ (r ++ c) :=
   PW.Props.C01.apply_operator_matrix_is_applyOn dims T hnd hlt O ρ r c hr hc
+
+/-- **Operands stored apart are brought together.** After the combine that a multi-subsystem
+operation triggers, all operands (wherever they were stored: own state, combined envelope, one or
+several product spaces) are members of one product space of the composite envelope. -/
+theorem operands_are_brought_together (l : Layout.Layout) (c : Nat) (T : List Nat) (hT : T ≠ [])
+    (hall : ∀ t ∈ T, t ∈ Layout.allMembers l) :
+    ∃ b ∈ Layout.combine l c T, b.kind = .ps c ∧ ∀ t ∈ T, t ∈ b.members :=
+  Layout.combine_gathers l c T hT hall
+
+/-- … without losing or duplicating any subsystem, and without touching blocks that hold no operand -/
+theorem bringing_together_is_lossless (l : Layout.Layout) (c : Nat) (T : List Nat) (h : Layout.WF l) :
+    (Layout.allMembers (Layout.combine l c T)).Perm (Layout.allMembers l) := Layout.combine_members_perm l c T h
+
+theorem other_blocks_untouched (l : Layout.Layout) (c : Nat) (T fronts : List Nat) (b : Layout.Block)
+    (hb : b ∈ l) (hwf : (Layout.allMembers l).Nodup) (hm : Layout.meets T b = false) (hf : ∀ f ∈ fronts, f ∈ T) :
+    b ∈ Routing.actOp l c T fronts := Routing.actOp_bystander l c T fronts b hb hwf hm hf
 
 section witness
 local instance : Conj Int := ⟨id⟩
@@ -50,3 +67,6 @@ end PW.Props.C03
 
 #print axioms PW.Props.C03.operands_bound_in_given_order
 #print axioms PW.Props.C03.cnot_order_matters
+#print axioms PW.Props.C03.operands_are_brought_together
+#print axioms PW.Props.C03.bringing_together_is_lossless
+#print axioms PW.Props.C03.other_blocks_untouched
